@@ -125,6 +125,20 @@ Example C02_object_text_example :
 ")%string.
 Proof. split; [cbn; tauto|]. repeat split; vm_compute; reflexivity. Qed.
 
+(* the zero-operand "the" forms (SpecLingo.EThe: the <special property> 5C 00, the <date / time function> 5C 00 with
+   numbers 6-11, the <system property> 5C 07 - outside a tell block, which [agrees] now states) are inside the inversion
+   and text theorems as well; a system property is written "the <name>" because its object is a runtime object *)
+Example C02_the_forms_example :
+  let en := Build_env ["x"] [] [] [] [] in
+  (wf_e en (EThe TSpecial 0) /\ wf_e en (EThe TDateTime 5) /\ wf_e en (EThe TSystem 27)) /\
+  text_ok en (EThe TSystem 27) /\
+  compile_e (EBin Add (EThe TSystem 27) (EInt 1)) = [Byte.x41; Byte.x1b; Byte.x5c; Byte.x07; Byte.x41; Byte.x01; Byte.x05] /\
+  gen_lingo (reify_e en 0 (EThe TSpecial 0)) 0 = "the floatPrecision" /\
+  gen_lingo (reify_e en 0 (EThe TDateTime 5)) 0 = "the long date" /\
+  gen_lingo (reify_e en 0 (EBin Add (EThe TSystem 27) (EInt 1))) 0 = "(the stageColor + 1)" /\
+  parse_expr 9 (strip (pp_tok en (EBin Add (EThe TSystem 27) (EInt 1)))) = Some (EBin Add (EThe TSystem 27) (EInt 1), []).
+Proof. split; [cbn; lia|]. repeat split; vm_compute; reflexivity. Qed.
+
 (* Statement lines: the line emitted for a decompiled assignment or statement-position call is the canonical
    line of the SOURCE statement - "set <target> = <expression>" with the target written as a variable, or as
    "the <name>" for a property the script does not declare; "<handler> <arguments>" without parentheses. *)
@@ -154,3 +168,17 @@ Theorem C02_structured_text_with_counting_loops :
     text_of (final en props pc q) ind = pp_q en props ind q.
 Proof. exact for_text. Qed.
 Print Assumptions C02_structured_text_with_counting_loops.
+
+(* The spec tie (tie/spec_tie.py, Spec/SpecIO.v) compares the texts named by the theorems above with the text the
+   implementation emits whenever the boolean side conditions hold; those imply the hypotheses of the theorems, and the
+   exit offsets it fills in are the ones C03's hypothesis exits_ok asks for. *)
+From DRX Require Import Spec.SpecIO Proofs.SpecIOFacts Proofs.LingoNestJs.
+Theorem C02_spec_tie_conditions_sound :
+  forall en props q, ok2b en q = true ->
+    ok2 en q /\ (text_okb_q en props q = true -> text_ok_q en props q) /\ (js_okb_q en props q = true -> js_ok_q en props q).
+Proof. intros en props q H. split; [apply ok2b_sound; exact H|]. split; [apply text_okb_q_sound | apply js_okb_q_sound]. Qed.
+Print Assumptions C02_spec_tie_conditions_sound.
+Theorem C02_spec_tie_exit_offsets :
+  forall p, exits_inside false p -> exits_ok None (fill None p).
+Proof. intros p H. apply (fill_ok p None). exact H. Qed.
+Print Assumptions C02_spec_tie_exit_offsets.
